@@ -253,8 +253,8 @@ def accessor_cases(group, tier):
     sizes = tuple(z for z in W.ACC_SIZES if tier != "quick" or z != (10, 20))
     for acc in W.ACC_ACCESSORS:
         for api in apis:
-            if api != "core" and "unique" in chain and acc[0] in ("fetchmany", "partitions") and acc[1] is not None:
-                # ORM + unique() + sized fetch: with a server-side cursor the ORM refuses ("Can't use the ORM yield_per feature in
+            if api != "core" and "unique" in chain and acc[0] in ("fetchmany", "partitions"):
+                # ORM + unique() + fetchmany / partitions (fetchmany(None) re-fetches a sized remainder after uniquing): with a server-side cursor the ORM refuses ("Can't use the ORM yield_per feature in
                 # conjunction with unique()"); pysqlite has no server-side cursors, so the synchronous side cannot reproduce it
                 continue
             for size in sizes:
